@@ -16,6 +16,7 @@ ap.add_argument("--seed", default="1")
 ap.add_argument("--only", default="")
 ap.add_argument("--seeded", action="store_true")
 ap.add_argument("--skip-suite", action="store_true")
+ap.add_argument("--skip", default="", help="comma separated substrings to leave out")
 args = ap.parse_args()
 
 ROOT = "/verif"
@@ -29,7 +30,7 @@ if args.seeded:
         d = os.path.dirname(meta)
         mj = json.load(open(meta))
         name = "seeded:" + os.path.basename(d)
-        if args.only in name:
+        if args.only in name and not any(x and x in name for x in args.skip.split(",")):
             jobs.put((name, os.path.join(d, "patch.diff"), mj.get("checks") or [mj["property"]]))
 else:
     for f in sorted(glob.glob(f"{ROOT}/selftest/mutants/*.diff")):
